@@ -20,7 +20,7 @@
    The argument of [cnfgen_main] is sys.argv[1:] (the program name is not part of it).
 
    TOKEN GRAMMAR (anything else gives POutside: the model claims nothing)
-     * every character of every token is ASCII (code < 128);
+     * every character of every token is ASCII (code < 128) (checked chunk by chunk, in parsing order);
      * before the formula name only the exact tokens  -q --quiet -v --verbose  (any number of them);
      * a token starting with "-" after a formula / transformation name is
          - an exact option string of that sub-command (php: --functional --onto; op: --total -t --smart -s
@@ -373,8 +373,14 @@ Fixpoint pl_parse_main (seen_q seen_v : bool) (toks : list text) : pl_parsed (pl
          end
   end.
 
+(* the first chunk (sys.argv[1:] up to the first -T) *)
+Definition pl_parse_chunk0 (toks : list text) : pl_parsed (pl_opts * option pl_fcmd) :=
+  if negb (forallb pl_is_ascii toks) then PlOutside else pl_parse_main false false toks.
+
 (* one chunk after a -T *)
 Definition pl_parse_tchunk (toks : list text) : pl_parsed (option pl_tcmd) :=
+  if negb (forallb pl_is_ascii toks) then PlOutside
+  else
   match toks with
   | [] => PlOk None                                        (* "-T" without a transformation: reported later *)
   | t :: r =>
@@ -412,17 +418,16 @@ Definition pl_parse_chunks (chunks : list (list text)) : pl_parsed pl_cmdline :=
   match chunks with
   | [] => PlOutside                                        (* split_T never returns the empty list *)
   | c0 :: rest =>
-    if negb (forallb (forallb pl_is_ascii) chunks) then PlOutside
-    else match pl_parse_main false false c0 with
-         | PlOk (o, g) =>
-           match pl_parse_tchunks rest with
-           | PlOk ts => PlOk (mk_pl_cmdline o g ts)
-           | PlErr => PlErr
-           | PlOutside => PlOutside
-           end
-         | PlErr => PlErr
-         | PlOutside => PlOutside
-         end
+    match pl_parse_chunk0 c0 with
+    | PlOk (o, g) =>
+      match pl_parse_tchunks rest with
+      | PlOk ts => PlOk (mk_pl_cmdline o g ts)
+      | PlErr => PlErr
+      | PlOutside => PlOutside
+      end
+    | PlErr => PlErr
+    | PlOutside => PlOutside
+    end
   end.
 
 (* ------------------------------------------------------------------ *)
